@@ -71,67 +71,70 @@ Qed.
 
 (* ---- the untruncated kernel of one hill: a product of one-dimensional Gaussians ---- *)
 Definition plain_var (v : varR) : Prop :=
-  v_kind v = KScalar /\ v_periodic v = false /\ v_gperiodic v = false /\ 0 < v_sigma v /\ 0 < v_width v.
+  v_kind v = KScalar /\ v_periodic v = false /\ v_gperiodic v = false /\ 0 < v_width v.
 
-Definition Gexp (vs : list varR) (x c : list valueR) : R := exp (- Qexp vs x c / 2).
+Definition Gexp (vs : list varR) (sg : list R) (x c : list valueR) : R := exp (- Qexp vs sg x c / 2).
 
-(* half a bin in units of sigma, summed over the variables *)
-Fixpoint half_bins (vs : list varR) : R :=
-  match vs with [] => 0 | v :: r => v_width v / (2 * v_sigma v) + half_bins r end.
+(* half a bin in units of the sigma of the hill, summed over the variables *)
+Fixpoint half_bins (vs : list varR) (sg : list R) : R :=
+  match vs, sg with v :: r, si :: sr => v_width v / (2 * si) + half_bins r sr | _, _ => 0 end.
 
-Lemma half_bins_nonneg vs : Forall plain_var vs -> 0 <= half_bins vs.
+Lemma half_bins_nonneg vs : forall sg, Forall plain_var vs -> Forall (Rlt 0) sg -> 0 <= half_bins vs sg.
 Proof.
-  induction vs as [|v vs IH]; intros H; cbn [half_bins]; [lra|].
-  inversion H as [|v0 l0 (_ & _ & _ & Hs & Hw) Hr]; subst. specialize (IH Hr).
-  assert (0 < v_width v / (2 * v_sigma v)) by (apply Rdiv_lt_0_compat; lra). lra.
+  induction vs as [|v vs IH]; intros sg H Hp; cbn [half_bins]; [lra|]. destruct sg as [|si sg]; [lra|].
+  inversion H as [|v0 l0 (_ & _ & _ & Hw) Hr]; subst. inversion Hp as [|s0 l1 Hs Hps]; subst. specialize (IH sg Hr Hps).
+  assert (0 < v_width v / (2 * si)) by (apply Rdiv_lt_0_compat; lra). lra.
 Qed.
 
 Definition Close (vs : list varR) (x y : list valueR) : Prop :=
   All3 (fun v xi yi => Rabs (scR xi - scR yi) <= v_width v / 2) vs x y.
 
-Lemma term_plain v xi ci : plain_var v ->
-  D v xi ci / (v_sigma v * v_sigma v) = ((scR xi - scR ci) / v_sigma v) * ((scR xi - scR ci) / v_sigma v).
+Lemma term_plain v si xi ci : plain_var v -> 0 < si ->
+  D v xi ci / (si * si) = ((scR xi - scR ci) / si) * ((scR xi - scR ci) / si).
 Proof.
-  intros (Hk & Hp & _ & Hs & _). unfold D, mdiff. rewrite Hk, Hp. field. lra.
+  intros (Hk & Hp & _) Hs. unfold D, mdiff. rewrite Hk, Hp. field. lra.
 Qed.
 
-Lemma Gexp_cons v vs xi x ci c : plain_var v ->
-  Gexp (v :: vs) (xi :: x) (ci :: c) = psi ((scR xi - scR ci) / v_sigma v) * Gexp vs x c.
+Lemma Gexp_cons v vs si sg xi x ci c : plain_var v -> 0 < si ->
+  Gexp (v :: vs) (si :: sg) (xi :: x) (ci :: c) = psi ((scR xi - scR ci) / si) * Gexp vs sg x c.
 Proof.
-  intros Hv. unfold Gexp, psi. cbn [Qexp]. rewrite (term_plain v xi ci Hv), <- exp_plus. f_equal. lra.
+  intros Hv Hs. unfold Gexp, psi. cbn [Qexp]. rewrite (term_plain v si xi ci Hv Hs), <- exp_plus. f_equal. lra.
 Qed.
 
-Lemma Gexp_bounds vs x c : 0 < Gexp vs x c <= 1.
+Lemma Gexp_bounds vs sg x c : 0 < Gexp vs sg x c <= 1.
 Proof.
-  unfold Gexp. split; [apply exp_pos|]. rewrite <- exp_0. pose proof (Qexp_nonneg vs x c) as H.
-  destruct (Req_dec (Qexp vs x c) 0) as [E|E]; [right; f_equal; lra|left; apply exp_increasing; lra].
+  unfold Gexp. split; [apply exp_pos|]. rewrite <- exp_0. pose proof (Qexp_nonneg vs sg x c) as H.
+  destruct (Req_dec (Qexp vs sg x c) 0) as [E|E]; [right; f_equal; lra|left; apply exp_increasing; lra].
 Qed.
 
-Lemma Gexp_lip vs : forall x y c, Forall plain_var vs -> Close vs x y ->
-  Rabs (Gexp vs x c - Gexp vs y c) <= exp (- (1 / 2)) * half_bins vs.
+Lemma Gexp_lip vs : forall sg x y c, Forall plain_var vs -> Forall (Rlt 0) sg -> Close vs x y ->
+  Rabs (Gexp vs sg x c - Gexp vs sg y c) <= exp (- (1 / 2)) * half_bins vs sg.
 Proof.
-  induction vs as [|v vs IH]; intros x y c Hv Hc.
+  induction vs as [|v vs IH]; intros sg x y c Hv Hp Hc.
   - destruct x; [|contradiction]. destruct y; [|contradiction]. unfold Gexp. cbn [Qexp half_bins].
     rewrite Rminus_self, Rabs_R0. lra.
   - destruct x as [|xi x]; [contradiction|]. destruct y as [|yi y]; [contradiction|].
     cbn [Close All3] in Hc. destruct Hc as [Hc1 Hc2]. inversion Hv as [|v0 l0 Hv1 Hvs]; subst.
-    pose proof (half_bins_nonneg vs Hvs) as Hhb. pose proof (exp_pos (- (1 / 2))) as He.
+    pose proof (exp_pos (- (1 / 2))) as He.
+    destruct sg as [|si sg].
+    { unfold Gexp. cbn [Qexp half_bins]. rewrite Rminus_self, Rabs_R0. lra. }
+    inversion Hp as [|s0 l1 Hs Hps]; subst. pose proof (half_bins_nonneg vs sg Hvs Hps) as Hhb.
     destruct c as [|ci c].
     + unfold Gexp. cbn [Qexp half_bins]. rewrite Rminus_self, Rabs_R0.
-      destruct Hv1 as (_ & _ & _ & Hs & Hw). assert (0 < v_width v / (2 * v_sigma v)) by (apply Rdiv_lt_0_compat; lra). nra.
-    + rewrite !Gexp_cons by exact Hv1. cbn [half_bins].
-      set (a := psi ((scR xi - scR ci) / v_sigma v)). set (b := psi ((scR yi - scR ci) / v_sigma v)).
-      set (p := Gexp vs x c). set (q := Gexp vs y c).
-      assert (Hab : Rabs (a - b) <= exp (- (1 / 2)) * (v_width v / (2 * v_sigma v))).
+      destruct Hv1 as (_ & _ & _ & Hw). assert (0 < v_width v / (2 * si)) by (apply Rdiv_lt_0_compat; lra). nra.
+    + rewrite !Gexp_cons by assumption. cbn [half_bins].
+      set (a := psi ((scR xi - scR ci) / si)). set (b := psi ((scR yi - scR ci) / si)).
+      set (p := Gexp vs sg x c). set (q := Gexp vs sg y c).
+      assert (Hab : Rabs (a - b) <= exp (- (1 / 2)) * (v_width v / (2 * si))).
       { eapply Rle_trans; [apply psi_lip|]. apply Rmult_le_compat_l; [lra|].
-        destruct Hv1 as (_ & _ & _ & Hs & Hw).
-        replace ((scR xi - scR ci) / v_sigma v - (scR yi - scR ci) / v_sigma v) with ((scR xi - scR yi) / v_sigma v) by (field; lra).
-        unfold Rdiv at 1. rewrite Rabs_mult, (Rabs_right (/ v_sigma v)) by (left; apply Rinv_0_lt_compat; lra).
-        replace (v_width v / (2 * v_sigma v)) with (v_width v / 2 * / v_sigma v) by (field; lra).
+        destruct Hv1 as (_ & _ & _ & Hw).
+        replace ((scR xi - scR ci) / si - (scR yi - scR ci) / si) with ((scR xi - scR yi) / si) by (field; lra).
+        unfold Rdiv at 1. rewrite Rabs_mult, (Rabs_right (/ si)) by (left; apply Rinv_0_lt_compat; lra).
+        replace (v_width v / (2 * si)) with (v_width v / 2 * / si) by (field; lra).
         apply Rmult_le_compat_r; [left; apply Rinv_0_lt_compat; lra|exact Hc1]. }
-      pose proof (IH x y c Hvs Hc2) as Hpq. fold p q in Hpq.
-      destruct (Gexp_bounds vs x c) as [Hp0 Hp1]. fold p in Hp0, Hp1.
-      pose proof (psi_pos ((scR yi - scR ci) / v_sigma v)) as Hb0. pose proof (psi_le1 ((scR yi - scR ci) / v_sigma v)) as Hb1.
+      pose proof (IH sg x y c Hvs Hps Hc2) as Hpq. fold p q in Hpq.
+      destruct (Gexp_bounds vs sg x c) as [Hp0 Hp1]. fold p in Hp0, Hp1.
+      pose proof (psi_pos ((scR yi - scR ci) / si)) as Hb0. pose proof (psi_le1 ((scR yi - scR ci) / si)) as Hb1.
       fold b in Hb0, Hb1.
       replace (a * p - b * q) with ((a - b) * p + b * (p - q)) by ring.
       eapply Rle_trans; [apply Rabs_triang|]. rewrite !Rabs_mult, (Rabs_right p), (Rabs_right b) by lra.
@@ -144,11 +147,11 @@ Qed.
 Lemma gauss_G q : gauss q = if Rlt_dec 23 q then 0 else exp (- q / 2).
 Proof. unfold gauss. destruct (Rlt_dec 23 q); [reflexivity|f_equal; lra]. Qed.
 
-Lemma gauss_trunc vs x y c :
-  Rabs (gauss (Qexp vs x c) - gauss (Qexp vs y c)) <= Rabs (Gexp vs x c - Gexp vs y c) + exp (- (23 / 2)).
+Lemma gauss_trunc vs sg x y c :
+  Rabs (gauss (Qexp vs sg x c) - gauss (Qexp vs sg y c)) <= Rabs (Gexp vs sg x c - Gexp vs sg y c) + exp (- (23 / 2)).
 Proof.
   rewrite !gauss_G. unfold Gexp. pose proof (exp_pos (- (23 / 2))) as He.
-  set (qx := Qexp vs x c). set (qy := Qexp vs y c).
+  set (qx := Qexp vs sg x c). set (qy := Qexp vs sg y c).
   pose proof (exp_pos (- qx / 2)) as Hx. pose proof (exp_pos (- qy / 2)) as Hy.
   pose proof (Rabs_pos (exp (- qx / 2) - exp (- qy / 2))) as Hd.
   destruct (Rlt_dec 23 qx) as [Lx|Lx]; destruct (Rlt_dec 23 qy) as [Ly|Ly].
@@ -166,26 +169,39 @@ Proof.
   - lra.
 Qed.
 
-(* per hill, and summed over hills *)
-Definition lip_bound (vs : list varR) : R := exp (- (1 / 2)) * half_bins vs + exp (- (23 / 2)).
-Fixpoint Wsum (hs : list hillR) : R := match hs with [] => 0 | h :: r => Rabs (h_W h) + Wsum r end.
+(* per hill (with the widths of the hill), and summed over hills *)
+Definition lip_bound (vs : list varR) (sg : list R) : R := exp (- (1 / 2)) * half_bins vs sg + exp (- (23 / 2)).
+Fixpoint Bsum (vs : list varR) (hs : list hillR) : R :=
+  match hs with [] => 0 | h :: r => Rabs (h_W h) * lip_bound vs (h_s h) + Bsum vs r end.
 
-Lemma K_lip vs h x y : Forall plain_var vs -> Close vs x y ->
-  Rabs (K vs h x - K vs h y) <= Rabs (h_W h) * lip_bound vs.
+Lemma K_lip vs h x y : Forall plain_var vs -> Forall (Rlt 0) (h_s h) -> Close vs x y ->
+  Rabs (K vs h x - K vs h y) <= Rabs (h_W h) * lip_bound vs (h_s h).
 Proof.
-  intros Hv Hc. unfold K, lip_bound. rewrite <- Rmult_minus_distr_l, Rabs_mult.
+  intros Hv Hp Hc. unfold K, lip_bound. rewrite <- Rmult_minus_distr_l, Rabs_mult.
   apply Rmult_le_compat_l; [apply Rabs_pos|].
-  eapply Rle_trans; [apply gauss_trunc|]. pose proof (Gexp_lip vs x y (h_c h) Hv Hc). lra.
+  eapply Rle_trans; [apply gauss_trunc|]. pose proof (Gexp_lip vs (h_s h) x y (h_c h) Hv Hp Hc). lra.
 Qed.
 
-Lemma Esum_lip vs hs x y : Forall plain_var vs -> Close vs x y ->
-  Rabs (Esum vs hs x - Esum vs hs y) <= Wsum hs * lip_bound vs.
+Lemma Esum_lip vs hs x y : Forall plain_var vs -> (forall h, In h hs -> Forall (Rlt 0) (h_s h)) -> Close vs x y ->
+  Rabs (Esum vs hs x - Esum vs hs y) <= Bsum vs hs.
 Proof.
-  intros Hv Hc. induction hs as [|h hs IH]; cbn [Wsum].
+  intros Hv Hp Hc. induction hs as [|h hs IH]; cbn [Bsum].
   - rewrite !Esum_nil, Rminus_self, Rabs_R0. lra.
   - rewrite !Esum_cons.
     replace (K vs h x + Esum vs hs x - (K vs h y + Esum vs hs y)) with ((K vs h x - K vs h y) + (Esum vs hs x - Esum vs hs y)) by ring.
-    eapply Rle_trans; [apply Rabs_triang|]. pose proof (K_lip vs h x y Hv Hc). lra.
+    eapply Rle_trans; [apply Rabs_triang|]. pose proof (K_lip vs h x y Hv (Hp h (or_introl eq_refl)) Hc).
+    assert (Rabs (Esum vs hs x - Esum vs hs y) <= Bsum vs hs) by (apply IH; intros h' Hin; apply Hp; right; exact Hin).
+    lra.
+Qed.
+
+Lemma Bsum_nonneg vs hs : Forall plain_var vs -> (forall h, In h hs -> Forall (Rlt 0) (h_s h)) -> 0 <= Bsum vs hs.
+Proof.
+  intros Hv Hp. induction hs as [|h hs IH]; cbn [Bsum]; [lra|].
+  assert (0 <= Bsum vs hs) by (apply IH; intros h' Hin; apply Hp; right; exact Hin).
+  assert (0 <= lip_bound vs (h_s h)).
+  { unfold lip_bound. pose proof (half_bins_nonneg vs (h_s h) Hv (Hp h (or_introl eq_refl))).
+    pose proof (exp_pos (- (1 / 2))). pose proof (exp_pos (- (23 / 2))). nra. }
+  pose proof (Rabs_pos (h_W h)). nra.
 Qed.
 
 (* ---- a value on the grid is within half a bin of the centre of its bin ---- *)
@@ -197,7 +213,7 @@ Proof.
   - destruct g as [|b g]; [discriminate|]. destruct x as [|xv x]; [discriminate|].
     inversion Hv as [|v0 l0 Hv1 Hvs]; subst. cbn [length] in Hg, Hx.
     rewrite gbins_cons. cbn [centre Close All3]. split; [|apply IH; [exact Hvs|lia|lia]].
-    destruct Hv1 as (_ & _ & Hgp & _ & Hw). unfold wbin. rewrite Hgp. cbn [scR]. rewrite btv_R, vtb_R.
+    destruct Hv1 as (_ & _ & Hgp & Hw). unfold wbin. rewrite Hgp. cbn [scR]. rewrite btv_R, vtb_R.
     pose proof (Zfloor_lb ((scR xv - b_lower b) / v_width v)) as Hl.
     pose proof (Zfloor_ub ((scR xv - b_lower b) / v_width v)) as Hu.
     pose proof (div_mul (scR xv - b_lower b) (v_width v) Hw) as Hd.
@@ -208,33 +224,33 @@ Qed.
 
 (* ---- the gridded bias against the analytic sum of all deposited hills at the actual position ---- *)
 Lemma spec_energy_discretisation c s x : Forall plain_var (c_vars c) ->
+  (forall h, In h (s_tab s) -> Forall (Rlt 0) (h_s h)) ->
   length (s_geom s) = length (c_vars c) -> length x = length (c_vars c) ->
-  Rabs (spec_energy c s x - Esum (c_vars c) (s_all s) x) <= Wsum (s_tab s) * lip_bound (c_vars c).
+  Rabs (spec_energy c s x - Esum (c_vars c) (s_all s) x) <= Bsum (c_vars c) (s_tab s).
 Proof.
-  intros Hv Hg Hx. unfold spec_energy, s_all. rewrite Esum_app.
+  intros Hv Hp Hg Hx. unfold spec_energy, s_all. rewrite Esum_app.
   destruct (in_grid c (s_geom s) x).
   - replace (Esum (c_vars c) (s_tab s) (bin_centre c (s_geom s) x) + Esum (c_vars c) (s_pend s) x -
              (Esum (c_vars c) (s_tab s) x + Esum (c_vars c) (s_pend s) x))
       with (- (Esum (c_vars c) (s_tab s) x - Esum (c_vars c) (s_tab s) (bin_centre c (s_geom s) x))) by ring.
-    rewrite Rabs_Ropp. apply Esum_lip; [exact Hv|]. unfold bin_centre. apply bin_centre_close; assumption.
-  - rewrite Rminus_self, Rabs_R0.
-    assert (0 <= Wsum (s_tab s)).
-    { induction (s_tab s) as [|h l IH]; cbn [Wsum]; [lra|]. pose proof (Rabs_pos (h_W h)). lra. }
-    assert (0 <= lip_bound (c_vars c)).
-    { unfold lip_bound. pose proof (half_bins_nonneg _ Hv). pose proof (exp_pos (- (1 / 2))). pose proof (exp_pos (- (23 / 2))). nra. }
-    nra.
+    rewrite Rabs_Ropp. apply Esum_lip; [exact Hv|exact Hp|]. unfold bin_centre. apply bin_centre_close; assumption.
+  - rewrite Rminus_self, Rabs_R0. apply Bsum_nonneg; assumption.
 Qed.
 
 Lemma energy_discretisation c hist i : cfg_ok c -> history_ok c (hist ++ [EStep i]) ->
   c_use_grids c = true -> Forall plain_var (c_vars c) ->
   Rabs (out_energy c hist i - Esum (c_vars c) (s_all (spec_run c (hist ++ [EStep i]))) (i_x i))
-  <= Wsum (s_tab (spec_run c (hist ++ [EStep i]))) * lip_bound (c_vars c).
+  <= Bsum (c_vars c) (s_tab (spec_run c (hist ++ [EStep i]))).
 Proof.
   intros Hok HH G Hv. rewrite (energy_holds c hist i Hok HH).
   pose proof (geometry_grows c _ Hok HH G) as Hgr.
   destruct (All3_length _ _ _ _ Hgr) as [_ Hl].
-  pose proof (last_step_adm c hist i HH G) as Ha. destruct (All3_length _ _ _ _ Ha) as [_ Hlx].
-  apply spec_energy_discretisation; [exact Hv|symmetry; exact Hl|symmetry; exact Hlx].
+  destruct (final_cfg_fixed c (hist ++ [EStep i])) as (Hvs & Hug & _).
+  pose proof (last_step_adm c hist i HH) as Ha. unfold adm in Ha. rewrite Hvs, Hug in Ha. specialize (Ha G).
+  destruct (All3_length _ _ _ _ Ha) as [_ Hlx].
+  destruct (run_inv c _ Hok HH) as [[_ _ _ _ _ _ _ _ _ _ Hcl] _]. rewrite Hug in Hcl.
+  apply spec_energy_discretisation; [exact Hv| |symmetry; exact Hl|symmetry; exact Hlx].
+  intros h Hin. destruct (Hcl G h ltac:(unfold s_all; apply in_or_app; left; exact Hin)) as [_ Hp]. exact Hp.
 Qed.
 
 (* ================================================================== the free-energy file (write_pmf) *)
@@ -283,8 +299,9 @@ Lemma pmf_holds c hist temp ix : cfg_ok c -> history_ok c hist -> c_use_grids c 
 Proof.
   intros Hok HH G Hix E.
   destruct (run_inv c hist Hok HH) as [[_ _ _ Hgeom _ He _ _ _ _ _] _].
+  destruct (final_cfg_fixed c hist) as (Hvs & _). rewrite Hvs in He.
   set (m := final_state Rops c hist) in *. set (s := spec_run c hist) in *.
-  unfold pmf_value. rewrite Hgeom. set (ixs := all_ix (gsizes (s_geom s))).
+  unfold pmf_value, pmf_shift. rewrite Hgeom. set (ixs := all_ix (gsizes (s_geom s))).
   assert (Hin : In ix ixs) by (apply all_ix_ok; exact Hix).
   unfold grid_max. destruct ixs as [|ix0 r] eqn:Ei; [destruct Hin|].
   cbn [nltb Rops].
